@@ -662,6 +662,18 @@ BODIES = [
     ("DecodingTable_processChunk", "utils/Coder/DecodingTable.cpp", "DecodingTable::processChunk", 0),
     ("StatCoder_encodeSymbol", "utils/Coder/StatCoder.cpp", "StatCoder::encodeSymbol", 0),
     ("StatCoder_encodeString", "utils/Coder/StatCoder.cpp", "StatCoder::encodeString", 0),
+    ("SSA_locate_id", "FMIndex/SSA.cpp", "SSA::locate_id", 0),
+    ("SSA_locateP", "FMIndex/SSA.cpp", "SSA::locateP", 0),
+    ("SSA_locate", "FMIndex/SSA.cpp", "SSA::locate", 0),
+    ("SSA_extract_id", "FMIndex/SSA.cpp", "SSA::extract_id", 0),
+    ("SSA_build_index", "FMIndex/SSA.cpp", "SSA::build_index", 0),
+    ("SSA_build_bwt", "FMIndex/SSA.cpp", "SSA::build_bwt", 0),
+    ("FMINDEX_ctor", "StringDictionaryFMINDEX.cpp", "StringDictionaryFMINDEX::StringDictionaryFMINDEX", 1),
+    ("FMINDEX_locate", "StringDictionaryFMINDEX.cpp", "StringDictionaryFMINDEX::locate", 0),
+    ("FMINDEX_extract", "StringDictionaryFMINDEX.cpp", "StringDictionaryFMINDEX::extract", 0),
+    ("FMINDEX_locatePrefix", "StringDictionaryFMINDEX.cpp", "StringDictionaryFMINDEX::locatePrefix", 0),
+    ("FMINDEX_locateSubstr", "StringDictionaryFMINDEX.cpp", "StringDictionaryFMINDEX::locateSubstr", 0),
+    ("FMINDEX_build_ssa", "StringDictionaryFMINDEX.cpp", "StringDictionaryFMINDEX::build_ssa", 0),
 ]
 
 
